@@ -136,9 +136,49 @@ def convert_monb(s, rng):
     return {"cfg": fwd_scripts._cfg(rng, 2), "ops": ops}
 
 
-MODEL_CONVERTERS = {"BatchOpen": convert_batch, "StaleReconcile": convert_stale, "MonBroadcast": convert_monb}
+def convert_disc(s, rng):
+    """Behaviour of DisComplete.tla -> channet script (A - B - C): the write of the revocation that B's next step waits for
+    is in flight; that peer disconnects / reconnects and the write completes in the order TLC chose."""
+    import fwd_scripts
+    what = s["what"]
+    src, dst = rng.choice([(0, 2), (2, 0)])
+    ops = []
+    npay = 0
+    if rng.random() < 0.3:
+        ops += [{"op": "send", "from": dst, "to": src, "amt": "big"}, {"op": "deliver_all"}]
+        npay += 1
+    ops.append({"op": "send", "from": src, "to": dst, "amt": rng.choice(["big", "justabove", "dust"])})
+    pay = npay
+    npay += 1
+    if what == "forward":
+        peer = src
+        ops += [{"op": "deliver", "from": src, "to": 1}] * 2 + [{"op": "deliver", "from": 1, "to": src}] * 2
+    else:
+        peer = dst
+        ops.append({"op": "deliver_all"})
+        ops.append({"op": "fail" if what == "failback" else "claim", "pay": pay})
+        ops += [{"op": "deliver", "from": dst, "to": 1}] * 2 + [{"op": "deliver", "from": 1, "to": dst}] * 2
+    ops.append({"op": "persist_mode", "node": 1, "mode": "inprogress"})
+    a, b = min(1, peer), max(1, peer)
+    for st in s["steps"]:
+        if st == "raa":
+            ops += [{"op": "deliver", "from": peer, "to": 1}] * rng.choice([1, 1, 2])
+        elif st == "disconnect":
+            ops.append({"op": "disconnect", "a": a, "b": b})
+        elif st == "reconnect":
+            ops.append({"op": "reconnect", "a": a, "b": b})
+            ops += fwd_scripts._deliveries(rng, [(1, peer), (peer, 1)], rng.randrange(0, 4))
+        else:
+            ops += [{"op": "complete", "node": 1, "which": "all"}, {"op": "forward", "node": 1}]
+            other = dst if peer == src else src
+            ops += fwd_scripts._deliveries(rng, [(1, other), (other, 1)], rng.randrange(0, 5))
+    ops += fwd_scripts._wind_down(npay, rng, [(0, 1), (1, 2)])
+    return {"cfg": fwd_scripts._cfg(rng, 3), "ops": ops}
+
+
+MODEL_CONVERTERS = {"BatchOpen": convert_batch, "StaleReconcile": convert_stale, "MonBroadcast": convert_monb, "DisComplete": convert_disc}
 # (each behaviour of these small models is run in several concrete variations)
-MODEL_REPEAT = {"MonBroadcast": 6, "StaleReconcile": 2}
+MODEL_REPEAT = {"MonBroadcast": 6, "StaleReconcile": 2, "DisComplete": 3}
 
 
 def run_lines(path, run):
